@@ -66,12 +66,10 @@ Section Ctor.
   Context {A : Type} (zero : A).
   Variables (nNodes dim : nat) (sets : string -> list nat) (conns : list (list nat)).
 
-  Definition mk_fsp : @val A :=
-    VObj [("mesh", VObj [("num_nodes", VInt nNodes); ("nodeSets", VDict sets); ("conns", VConns conns)])].
-  Definition ebc_val (e : string * nat) : @val A := VObj [("nodeSet", VStr (fst e)); ("component", VInt (snd e))].
-  Definition mk_ebcs (ebl : list (string * nat)) : @val A := VTup (map ebc_val ebl).
-  (* the BC list as the hand model takes it: node lists instead of node-set names *)
-  Definition ebcs_of (ebl : list (string * nat)) : list (list nat * nat) := map (fun e => (sets (fst e), snd e)) ebl.
+  Notation mk_fsp := (@mk_fsp A nNodes sets conns).
+  Notation ebc_val := (@ebc_val A).
+  Notation mk_ebcs := (@mk_ebcs A).
+  Notation ebcs_of := (ebcs_of sets).
 
   Variable cm : string -> @val A -> list (@val A) -> option (@val A).
   Variable ebl : list (string * nat).
@@ -708,7 +706,6 @@ Section Ctor2.
 End Ctor2.
 
 (* ------------------------------------------------------------------ the constructor theorem *)
-Definition rect_conns (conns : list (list nat)) : Prop := Forall (fun row => length row = length (hd [] conns)) conns.
 
 Section Main.
   Context {A : Type} (zero : A).
